@@ -49,6 +49,18 @@ func (m Map) validate() error {
 				errs = append(errs, errorx.Invalid("Chord %s Extends %s not found", c.Name, x))
 			}
 		}
+		steps := 0
+		for x := c; x.Extends != ""; steps++ {
+			if steps > len(m.chords) {
+				errs = append(errs, errorx.Invalid("Chord %s Extends cycle", c.Name))
+				break
+			}
+			next, ok := m.chords[x.Extends]
+			if !ok {
+				break
+			}
+			x = next
+		}
 	}
 
 	return errors.Join(errs...)
